@@ -45,7 +45,7 @@ def size_of(i, bs):
 
 # weighted table of file-system ops; index 0 is the simplest
 FS_OPS = (["create"] * 7 + ["delete"] * 4 + ["append"] * 2 + ["truncate"] * 2 + ["rewrite"] * 2 + ["touch"] + ["rename"] * 2 +
-          ["move"] * 2 + ["copy"] + ["mkdir"] + ["rmdir"] + ["create_same"] + ["symlink"] + ["hardlink"] + ["file_to_dir"] + ["file_to_link"])
+          ["move"] * 2 + ["copy"] + ["mkdir"] + ["rmdir"] + ["create_same"] + ["undelete"] * 3 + ["rewrite_same_sec"] + ["symlink"] + ["hardlink"] + ["file_to_dir"] + ["file_to_link"])
 FS_OPS_NOLINK = [o for o in FS_OPS if o not in ("symlink", "hardlink", "file_to_dir", "file_to_link")]
 
 STEP = st.tuples(st.integers(0, 255), st.integers(0, 255), st.integers(0, 255), st.integers(0, 255), st.integers(0, 1 << 20))
@@ -67,6 +67,10 @@ def decode_fs(t, bs, ndisks, odd=True, links=True):
         return {"op": op, "disk": disk, "fi": b, "size": size_of(c, bs)}
     if op == "rewrite":
         return {"op": op, "disk": disk, "fi": b, "cseed": seed, "kind": kind}
+    if op == "rewrite_same_sec":
+        return {"op": "rewrite", "disk": disk, "fi": b, "cseed": seed, "kind": kind, "same_sec": True}
+    if op == "undelete":
+        return {"op": "undelete", "disk": disk, "fi": b % 3 if b % 2 else 0, "keep_mtime": seed % 3 == 0}
     if op == "touch":
         return {"op": op, "disk": disk, "fi": b, "ns0": seed % 2 == 0}
     if op == "delete":
@@ -90,7 +94,7 @@ def decode_fs(t, bs, ndisks, odd=True, links=True):
     raise AssertionError(op)
 
 
-SYNC_FORMS = [{}, {}, {}, {}, {"B": 1}, {"S": 0, "B": 1}, {"F": True}, {"R": True}, {"h": True}, {"N": True}, {"kill_after": True}, {}]
+SYNC_FORMS = [{}, {}, {}, {}, {"B": 1}, {"S": 0, "B": 1}, {"F": True}, {"R": True}, {"h": True}, {"N": True}, {"kill_after": True}, {}, {"kill_after": True}]
 
 
 def decode_sync(t):
